@@ -389,4 +389,69 @@ def read (bs : Bytes) : Option Module := do
   some { name := adjustString (cstr name), chn := chn, orders := ords.take len, pats := pats,
          ins := (List.range 31).zipWith hdrIns hdrs, smps := smps.map obsLoop, spd := 6, bpm := 125 }
 
+/-! ## well-formed MOD songs (the domain of the round-trip theorem) -/
+
+def CellOk (c : Cell) : Prop := NoteOk c.note ∧ c.ins < 32 ∧ c.vol = 0
+instance (c : Cell) : Decidable (CellOk c) := by unfold CellOk; infer_instance
+
+def PatOk (chn : Nat) (p : Pat) : Prop :=
+  p.rows = 64 ∧ p.cells.length = 64 * chn ∧ ∀ c ∈ p.cells, CellOk c
+instance (chn : Nat) (p : Pat) : Decidable (PatOk chn p) := by unfold PatOk; infer_instance
+
+/-- exactly one sub-instrument, pointing at sample `i`, finetune a signed nibble × 16 -/
+def SubsOk (i : Nat) : List Sub → Prop
+  | [sub] => sub.sid = i ∧ sub.vol ≤ 64 ∧ sub.pan = 0x80 ∧ sub.xpo = 0 ∧
+             -128 ≤ sub.fin ∧ sub.fin ≤ 112 ∧ sub.fin % 16 = 0
+  | _ => False
+
+instance (i : Nat) (l : List Sub) : Decidable (SubsOk i l) := by
+  unfold SubsOk; split <;> infer_instance
+
+/-- instrument `i` with its sample: empty slot, or one sub-instrument pointing at sample `i` -/
+def SlotOk (i : Nat) (x : Ins) (m : Smp) : Prop :=
+  NameOk 22 x.name ∧ x.keymap = [] ∧ m.name = [] ∧ m.sus = 0 ∧ m.sue = 0 ∧
+  m.len % 2 = 0 ∧ m.len < 131072 ∧ m.pcm.length = m.len ∧
+  (if m.len = 0 then x.subs = [] ∧ m.lps = 0 ∧ m.lpe = 0 ∧ m.flg = 0
+   else SubsOk i x.subs ∧ m.pcm.take 5 ≠ adpcmTag ∧
+        ((m.flg = 0 ∧ m.lps = 0 ∧ m.lpe = 0) ∨
+         (m.flg = FLOOP ∧ m.lps % 2 = 0 ∧ m.lpe % 2 = 0 ∧ m.lps + 4 ≤ m.lpe ∧ m.lpe ≤ m.len)))
+
+instance (i : Nat) (x : Ins) (m : Smp) : Decidable (SlotOk i x m) := by
+  unfold SlotOk; infer_instance
+
+def SlotsOk : Nat → List Ins → List Smp → Prop
+  | _, [], [] => True
+  | i, x :: xs, m :: ms => SlotOk i x m ∧ SlotsOk (i + 1) xs ms
+  | _, _, _ => False
+
+instance : (i : Nat) → (xs : List Ins) → (ms : List Smp) → Decidable (SlotsOk i xs ms)
+  | _, [], [] => isTrue trivial
+  | i, x :: xs, m :: ms => by
+    unfold SlotsOk
+    have := instDecidableSlotsOk (i + 1) xs ms
+    infer_instance
+  | _, [], _ :: _ => isFalse (by simp [SlotsOk])
+  | _, _ :: _, [] => isFalse (by simp [SlotsOk])
+
+/-- Well-formed MOD song + writer options: 31 instrument slots, 64-row patterns, notes of the
+five-octave period table, the order table reaches every stored pattern, speed 6 / tempo 125. -/
+structure WellFormed (s : Module) (o : Opts) : Prop where
+  name : NameOk 20 s.name
+  chn : 1 ≤ s.chn ∧ s.chn ≤ 32
+  kind : o.kind < 4
+  olen : s.orders.length ≤ 128
+  pcount : patCount (padTo 128 s.orders) 0 = s.pats.length
+  pats : ∀ p ∈ s.pats, PatOk s.chn p
+  nins : s.ins.length = 31
+  slots : SlotsOk 0 s.ins s.smps
+  spd : s.spd = 6
+  bpm : s.bpm = 125
+
+instance (s : Module) (o : Opts) : Decidable (WellFormed s o) :=
+  decidable_of_iff (NameOk 20 s.name ∧ (1 ≤ s.chn ∧ s.chn ≤ 32) ∧ o.kind < 4 ∧ s.orders.length ≤ 128 ∧
+      patCount (padTo 128 s.orders) 0 = s.pats.length ∧ (∀ p ∈ s.pats, PatOk s.chn p) ∧ s.ins.length = 31 ∧
+      SlotsOk 0 s.ins s.smps ∧ s.spd = 6 ∧ s.bpm = 125)
+    ⟨fun ⟨a, b, c, d, e, f, g, h, i, j⟩ => ⟨a, b, c, d, e, f, g, h, i, j⟩,
+     fun ⟨a, b, c, d, e, f, g, h, i, j⟩ => ⟨a, b, c, d, e, f, g, h, i, j⟩⟩
+
 end Xmp.Fmt.Mod
